@@ -347,6 +347,8 @@ def _parse_str_arms(src, text, ob, cb):
         pat = " ".join(l.split("//")[0] for l in pat.split("\n")).strip()
         if re.fullmatch(r"\|?\s*%s(\s*\|\s*%s)*" % (STRLIT_RE, STRLIT_RE), pat):
             arms.append((re.findall(STRLIT_RE, pat), None, body))
+        elif re.fullmatch(r"\|?\s*Some\(%s\)(\s*\|\s*Some\(%s\))*" % (STRLIT_RE, STRLIT_RE), pat):
+            arms.append((["Some:" + l for l in re.findall(STRLIT_RE, pat)], None, body))
         elif pat == "_":
             arms.append((None, None, body))
         elif re.fullmatch(r"[a-z_][a-z0-9_]*", pat):
@@ -418,9 +420,11 @@ def rewrite_strmatch(text):
                     # the scrutinee would stay alive across arms that mutate the same object
                     simple = re.fullmatch(r"[A-Za-z_][\w]*(\.[A-Za-z_0-9]+(\(\))?)*", expr) is not None
                     sc = expr if simple else "m_"
+                    if any(l.startswith("Some:") for a in arms if a[0] for l in a[0]):
+                        simple, sc = False, "m_"      # Option<&str> scrutinee: bind it, compare with opt_str_is
                     for lits, bind, body in arms:
                         if lits:
-                            parts.append("if %s %s" % (" || ".join("%s == %s" % (sc, l) for l in lits), body))
+                            parts.append("if %s %s" % (" || ".join(("opt_str_is(%s, %s)" % (sc, l[5:])) if l.startswith("Some:") else ("%s == %s" % (sc, l)) for l in lits), body))
                         elif bind:
                             parts.append("{ let %s = %s; %s }" % (bind, sc, body))
                             closed = True
